@@ -271,6 +271,22 @@ fn pathologies() -> Vec<Patho> {
     add("long-regex", Box::new(|| format!("str_m matches \"{}\"", "a".repeat(N))));
     add("long-regex-alternation", Box::new(|| format!("str_m matches \"{}\"", vec!["ab"; 2_000].join("|"))));
     add("long-regex-nesting", Box::new(|| format!("str_m matches \"{}a{}\"", "(".repeat(2_000), ")".repeat(2_000))));
+    // bracket nesting *inside* a literal: the filter parser's nesting limit never sees these
+    add("regex-deep-groups", Box::new(|| format!("str_m matches \"{}a{}\"", "(".repeat(N), ")".repeat(N))));
+    add("regex-deep-groups-unclosed", Box::new(|| format!("str_m matches \"{}a\"", "(".repeat(N))));
+    add("regex-deep-noncapturing-raw", Box::new(|| format!("str_m matches r#\"{}a{}\"#", "(?:".repeat(N), ")".repeat(N))));
+    add("regex-deep-named-groups", Box::new(|| format!("str_m ~ \"{}a{}\"", "(?P<g>".repeat(N), ")".repeat(N))));
+    add("regex-deep-classes", Box::new(|| format!("str_m matches \"{}a{}\"", "[".repeat(N), "]".repeat(N))));
+    add("regex-deep-classes-negated", Box::new(|| format!("str_m matches r\"{}a{}\"", "[^b[".repeat(N / 2), "]]".repeat(N / 2))));
+    add("regex-stacked-repetitions", Box::new(|| format!("str_m matches \"a{}\"", "*".repeat(N))));
+    add("regex-stacked-counted-repetitions", Box::new(|| format!("str_m matches \"a{}\"", "{1}".repeat(N))));
+    add("regex-deep-group-alternations", Box::new(|| format!("str_m matches \"{}a{}\"", "(b|".repeat(N), ")".repeat(N))));
+    add("regex-deep-groups-in-call-argument", Box::new(|| format!("upper1(str_m) matches \"{}a{}\"", "((".repeat(N / 2), "))".repeat(N / 2))));
+    add("regex-deep-groups-in-list-of-filters", Box::new(|| format!("tru_m or (str_m matches \"{}a{}\")", "(".repeat(N), ")*".repeat(N))));
+    add("wildcard-deep-brackets", Box::new(|| format!("str_m wildcard \"{}a{}\"", "[(".repeat(N / 2), ")]".repeat(N / 2))));
+    add("string-deep-brackets", Box::new(|| format!("str_m == \"{}a{}\"", "({[".repeat(N / 3), "]})".repeat(N / 3))));
+    add("list-deep-braces", Box::new(|| format!("num_m in {}1{}", "{".repeat(N), "}".repeat(N))));
+    add("index-deep-brackets", Box::new(|| format!("l_num_m{}0{} == 1", "[".repeat(N), "]".repeat(N))));
     add("long-wildcard", Box::new(|| format!("str_m wildcard \"{}\"", "a*b".repeat(N / 3))));
     add("long-wildcard-escapes", Box::new(|| format!("str_m strict wildcard r\"{}\"", "\\*\\\\".repeat(N / 4))));
     add("long-identifier", Box::new(|| format!("{} == 1", "n".repeat(N))));
